@@ -722,6 +722,19 @@ func build(thorough bool) spaces {
 	for _, r := range ioRisky {
 		addRisky("io", r, readerCells)
 	}
+	// exponent bombs: a dozen bytes that denote a number of astronomic size (every destination: the big number
+	// types are the ones that could try to write it out)
+	nExp := 0
+	for _, e := range []string{"400", "5000", "100000", "600000000", "-600000000", "9223372036854775807"} {
+		for _, f := range []string{"d1e%s;", "d-1.5e%s;", "a1{d1e%s;}", "m1{d1e%s;1}", "s%s\"\"", "d1e%s"} {
+			if strings.HasPrefix(f, "s") && strings.HasPrefix(e, "-") {
+				continue
+			}
+			nExp++
+			addRisky("io", riskyIn{[]byte(fmt.Sprintf(f, e)), "exponent=" + e}, readerCells)
+		}
+	}
+	sp.info["io_exponent_bombs"] = nExp
 
 	// ref domain: back-references converted into destinations of another type; all edits and all huge values
 	refIn, refRisky := explicit("ref", refStreams(), allOf, allOf, nil)
